@@ -258,3 +258,32 @@ def c01_units(tier):
 reg("C01", c01_units,
     "bounded symbolic model checking of one claimer from an arbitrary store: the task handed out is ready by the manual's definition, the oldest such in scope, ends doing and claimed by the caller, 'no ready' only when the ready set is empty, lock busy writes nothing; plus the lock discipline of claim (load, choose and write inside one exclusive non-blocking section). At-most-one hand-out across concurrent claimers follows from mutual exclusion of the sections (kernel assumption).",
     FS_ASSUME + ["concurrent claimers are not interleaved symbolically; see C02"])
+
+
+# ---------------------------------------------------------------- C12 / C17
+HS12 = ["c10.go", "c11.go", "c03.go", "c12.go"]
+
+
+def c12_units(tier):
+    f = dict(FSFLAGS, only="C12/")
+    fshow = dict(f)
+    fshow["stubs"] = f["stubs"] + ",collectEpicChildren=zzNoChildrenCut"
+    us = [
+        Unit("located-parse-errors", HS12, "zzC12_ParseErrors", f, bounds="ANY log of <=3 lines: each blank / unparsable / an event, present or not, last one complete or not; real readEvents"),
+        Unit("total-replay-and-readers", HS12, "zzC12_Total", dict(f, nopanics_off=""), bounds="ANY 2 events (any type string, ids, malformed payloads, unparsable timestamps) through replayEvents, listTasks, readyTasks, isBlocked, buildTaskListItems, selectPruneTargets, compactEvents: every nil dereference, index, nil-map write and loop bound is an obligation"),
+        Unit("epics-order-deterministic", HS12, "zzC12_EpicOrder", f, bounds="two epics with arbitrary creation times given to sortByCreatedAt in both orders"),
+        Unit("pure-list", HS12, "zzC12_PureList", f, bounds="list --json with every flag combination on the file model"),
+        Unit("pure-show", HS12, "zzC12_PureShow", fshow, note="CUT: collectEpicChildren (display) summarised", bounds="show --json <any id>"),
+        Unit("pure-prune-dry-run", HS12, "zzC12_PurePrune", f, bounds="prune without --yes"),
+    ] + [Unit("history-grows-" + n.lower(), HS12, "zzC12_History" + n, f, bounds="clean log of <=2 arbitrary events; the command succeeds or fails; every initial line must still be present with identical content") for n in ("NewTask", "Claim", "Plan", "Prune")]
+    return us
+
+
+reg("C12", c12_units,
+    "bounded symbolic model checking of five obligation groups: located parse errors (real readEvents on an arbitrary <=3-line file vs the rule written as a formula), totality (panic / unwinding obligations of replay and every reader for 2 arbitrary events), determinism of the epics ordering (2-safety: same result for both input orders), read purity (no effect on the log), history only grows (old lines present with identical content after appends, plan and prune).",
+    FS_ASSUME + ["byte-level behaviour of bufio.Scanner / encoding/json on arbitrary bytes (bit flips, 10 MiB lines, wrong field types) is represented only through the line flags {blank, parses} and the payload flag {malformed}; that those libraries terminate and do not panic is assumed",
+                 "determinism is checked for the one sort whose comparator is not total by construction (sortByCreatedAt); other sorts compare ids, which are unique"])
+
+reg("C17", lambda tier: cmd_units("C17/", ["set-json", "set-flags", "set-body-stdin", "new-task-json", "new-task-flags", "new-task-body-stdin", "new-epic-json", "new-epic-flags", "new-epic-body-stdin"]),
+    "bounded symbolic model checking of the data flow of titles and bodies through every input mode of new task / new epic / set: the text is an unconstrained atom (every string), and what a following read returns must be that atom, or its TrimSpace exactly where the manual documents trimming; plan texts are covered by C11 (run-plan), survival through compact by C05.",
+    ["encoding/json is assumed to round-trip every valid-UTF-8 string through Marshal/Unmarshal and through the non-HTML-escaping output encoder (contract of the package; not encoded)", "strings are opaque atoms here: the claim is about which input reaches which field unaltered, not about byte-level escaping"])
